@@ -24,7 +24,7 @@ func c09Bool(src string, b map[string]any) bool {
 	return r
 }
 
-const c09OpKinds = 24
+const c09OpKinds = 26
 
 func c09Operand(k int) any {
 	switch k {
@@ -80,12 +80,18 @@ func c09Operand(k int) any {
 		return c09Drop{[]any{nd.IntIn(0, 2)}}
 	case 23:
 		return []any(nil)
+	case 24:
+		return c09Text(nd.String(nd.Choice(3))) // a named string type is a string
+	case 25:
+		return []c09Text{c09Text(nd.String(1))}
 	default:
 		return map[string]any{"k": nd.Int()}
 	}
 }
 
 type c09Flag bool
+
+type c09Text string
 
 type c09Drop struct{ v any }
 
